@@ -213,7 +213,8 @@ def open_kind(kind: str, rng, ctx, overflow: bool = False) -> Opened:
             if rng.random() < 0.7:
                 ms = rng.choice([1, 8, 16])
                 n = rng.randrange(1, 40)
-                sf, layer, meta = whds.build_hds(rng, version=rng.choice([1, 2]), m_sectors=ms, nclusters=n, placement="shuffle", tag=tag + j)
+                sf, layer, meta = whds.build_hds(rng, version=rng.choice([1, 2]), m_sectors=ms, nclusters=n, placement="shuffle", tag=tag + j,
+                                                 in_use=rng.random() < 0.3)
                 typ = "Compressed"
                 nsec = meta["size"] // SECTOR
                 parts.append(Model(meta["size"], [layer]))
